@@ -174,14 +174,22 @@ func (e Event) String(cfg []Beh) string {
 			return "R"
 		case "eof":
 			return "Re"
+		case "blocked":
+			return "Rb"
 		}
 		return "R!"
 	case "Wh", "Wp", "Wo":
+		if e.Res == "blocked" {
+			return "Wb"
+		}
 		if e.Res != "ok" {
 			return e.Kind + "!"
 		}
 		return e.Kind
 	case "Wl":
+		if e.Res == "blocked" {
+			return "Wb"
+		}
 		if e.Res != "ok" {
 			return "Wl!"
 		}
@@ -230,29 +238,51 @@ var (
 	errCB    = errors.New("harness: scripted callback error")
 )
 
+// faultSpec is the decoded `fault` field: `/`-separated parts `k` / `k+` (failing operations),
+// `Cn` (cancel after n events), `CB` (cancel as soon as an operation blocks), `Hk` (operation k
+// blocks until its deadline passes), `Bk` = `CB/Hk`.
 type faultSpec struct {
-	k      int
-	from   bool
-	none   bool
-	cancel bool // k = number of events after which the context is cancelled
+	k        int
+	from     bool
+	none     bool // no failing operation
+	cancel   bool // cancelAt = number of events after which the context is cancelled
+	cancelAt int
+	cancelB  bool // cancel when an operation blocks
+	block    int  // index of the blocking operation (-1 none)
 }
 
 func parseFault(s string) (faultSpec, error) {
-	if s == "-" || s == "" {
-		return faultSpec{none: true}, nil
+	f := faultSpec{none: true, block: -1}
+	if s == "" {
+		return f, nil
 	}
-	f := faultSpec{}
-	if strings.HasPrefix(s, "C") {
-		k, err := strconv.Atoi(s[1:])
-		return faultSpec{none: true, cancel: true, k: k}, err
+	for _, part := range strings.Split(s, "/") {
+		var err error
+		switch {
+		case part == "-":
+		case part == "CB":
+			f.cancelB = true
+		case strings.HasPrefix(part, "C"):
+			f.cancel = true
+			f.cancelAt, err = strconv.Atoi(part[1:])
+		case strings.HasPrefix(part, "H"):
+			f.block, err = strconv.Atoi(part[1:])
+		case strings.HasPrefix(part, "B"):
+			f.cancelB = true
+			f.block, err = strconv.Atoi(part[1:])
+		default:
+			f.none = false
+			if strings.HasSuffix(part, "+") {
+				f.from = true
+				part = part[:len(part)-1]
+			}
+			f.k, err = strconv.Atoi(part)
+		}
+		if err != nil {
+			return f, err
+		}
 	}
-	if strings.HasSuffix(s, "+") {
-		f.from = true
-		s = s[:len(s)-1]
-	}
-	k, err := strconv.Atoi(s)
-	f.k = k
-	return f, err
+	return f, nil
 }
 
 func (f faultSpec) at(i int) bool {
@@ -281,8 +311,10 @@ type runState struct {
 	cancel    context.CancelFunc
 	cancelled bool
 	dmu       sync.Mutex
-	deadline  time.Time
-	past      chan struct{} // closed when a deadline in the past has been set
+	rdl, wdl  time.Time     // read and write deadline of the connection
+	pastR     chan struct{} // closed when a read deadline in the past has been set
+	pastW     chan struct{}
+	gaveUp    map[bool]bool
 }
 
 // add records an event (r.mu held) and cancels the context when the case asks for it.
@@ -292,37 +324,75 @@ func (r *runState) add(e Event) {
 }
 
 func (r *runState) maybeCancel() {
-	if r.fault.cancel && !r.cancelled && len(r.events) >= r.fault.k {
+	hit := r.fault.cancel && len(r.events) >= r.fault.cancelAt
+	if r.fault.cancelB && len(r.events) > 0 && r.events[len(r.events)-1].Res == "blocked" {
+		hit = true
+	}
+	if hit && !r.cancelled {
 		r.cancelled = true
 		r.cancel()
 	}
 }
 
-// expired reports whether the connection's deadline has passed; once the context has been
-// cancelled it first gives the library's deadline goroutine time to act.
-func (r *runState) expired(wait time.Duration) bool {
-	if r.cancelled && wait > 0 {
+// expired reports whether the connection's read (wr = false) or write deadline has passed;
+// once the context has been cancelled it first gives the library's deadline goroutine time to
+// act.
+func (r *runState) expired(wr bool, wait time.Duration) bool {
+	if r.cancelled && wait > 0 && !r.gaveUp[wr] {
+		ch := r.pastR
+		if wr {
+			ch = r.pastW
+		}
 		select {
-		case <-r.past:
+		case <-ch:
 		case <-time.After(wait):
+			// the watcher does not move this deadline: do not wait for it again
+			r.gaveUp[wr] = true
 		}
 	}
 	r.dmu.Lock()
 	defer r.dmu.Unlock()
-	return !r.deadline.IsZero() && r.deadline.Before(time.Now())
+	d := r.rdl
+	if wr {
+		d = r.wdl
+	}
+	return !d.IsZero() && d.Before(time.Now())
 }
 
-func (r *runState) setDeadline(t time.Time) {
+func (r *runState) setDeadline(t time.Time, rd, wr bool) {
 	r.dmu.Lock()
 	defer r.dmu.Unlock()
-	r.deadline = t
-	if !t.IsZero() && t.Before(time.Now()) {
+	past := !t.IsZero() && t.Before(time.Now())
+	mark := func(ch chan struct{}) {
 		select {
-		case <-r.past:
+		case <-ch:
 		default:
-			close(r.past)
+			close(ch)
 		}
 	}
+	if rd {
+		r.rdl = t
+		if past {
+			mark(r.pastR)
+		}
+	}
+	if wr {
+		r.wdl = t
+		if past {
+			mark(r.pastW)
+		}
+	}
+}
+
+// blockUntilDeadline emulates an operation that does not complete (r.mu held on entry and
+// exit): it waits until the deadline of its direction is in the past. If that does not happen
+// the watchdog of Exec reports the stall; the goroutine itself gives up later.
+func (r *runState) blockUntilDeadline(wr bool) {
+	r.mu.Unlock()
+	for i := 0; i < 400 && !r.expired(wr, 0); i++ {
+		time.Sleep(5 * time.Millisecond)
+	}
+	r.mu.Lock()
 }
 
 func (r *runState) state() uint8 {
@@ -342,9 +412,9 @@ func (addr) String() string  { return "mem" }
 func (c conn) Close() error                       { return nil }
 func (c conn) LocalAddr() net.Addr                { return addr{} }
 func (c conn) RemoteAddr() net.Addr               { return addr{} }
-func (c conn) SetDeadline(t time.Time) error      { c.r.setDeadline(t); return nil }
-func (c conn) SetReadDeadline(t time.Time) error  { c.r.setDeadline(t); return nil }
-func (c conn) SetWriteDeadline(t time.Time) error { c.r.setDeadline(t); return nil }
+func (c conn) SetDeadline(t time.Time) error      { c.r.setDeadline(t, true, true); return nil }
+func (c conn) SetReadDeadline(t time.Time) error  { c.r.setDeadline(t, true, false); return nil }
+func (c conn) SetWriteDeadline(t time.Time) error { c.r.setDeadline(t, false, true); return nil }
 
 func (c conn) Read(p []byte) (int, error) {
 	r := c.r
@@ -362,7 +432,14 @@ func (c conn) Read(p []byte) (int, error) {
 		r.add(Event{Kind: "R", Res: "fault", St: st})
 		return 0, errFault
 	}
-	if r.expired(300 * time.Millisecond) {
+	if r.expired(false, 300*time.Millisecond) {
+		r.add(Event{Kind: "R", Res: "fault", St: st})
+		return 0, os.ErrDeadlineExceeded
+	}
+	if idx == r.fault.block {
+		// the peer is silent: the read returns only when its deadline passes
+		r.add(Event{Kind: "R", Res: "blocked", St: st})
+		r.blockUntilDeadline(false)
 		r.add(Event{Kind: "R", Res: "fault", St: st})
 		return 0, os.ErrDeadlineExceeded
 	}
@@ -375,11 +452,7 @@ func (c conn) Read(p []byte) (int, error) {
 		if r.cs.Block {
 			// a silent peer: the read blocks until the deadline is in the past (if that
 			// never happens the watchdog of Exec reports a stall)
-			r.mu.Unlock()
-			for i := 0; i < 2000 && !r.expired(0); i++ {
-				time.Sleep(10 * time.Millisecond)
-			}
-			r.mu.Lock()
+			r.blockUntilDeadline(false)
 			r.add(Event{Kind: "R", Res: "fault", St: st})
 			return 0, os.ErrDeadlineExceeded
 		}
@@ -408,7 +481,17 @@ func (c conn) Write(p []byte) (int, error) {
 		r.add(e)
 		return 0, errFault
 	}
-	if r.expired(300 * time.Millisecond) {
+	if r.expired(true, 300*time.Millisecond) {
+		e.Res = "fault"
+		r.add(e)
+		return 0, os.ErrDeadlineExceeded
+	}
+	if idx == r.fault.block && e.Kind != "Wp" {
+		// the peer does not read: the write returns only when its deadline passes
+		b := e
+		b.Res = "blocked"
+		r.add(b)
+		r.blockUntilDeadline(true)
 		e.Res = "fault"
 		r.add(e)
 		return 0, os.ErrDeadlineExceeded
@@ -657,7 +740,7 @@ func Exec(cs Case) Result {
 		return Result{Outcome: "BADCASE", Err: err.Error()}
 	}
 	r := &runState{cs: &cs, fault: fs, script: append([]Item(nil), cs.Script...),
-		server: cs.St0&Received != 0, s2s: cs.St0&S2S != 0, past: make(chan struct{})}
+		server: cs.St0&Received != 0, s2s: cs.St0&S2S != 0, pastR: make(chan struct{}), pastW: make(chan struct{}), gaveUp: map[bool]bool{}}
 	ctx, cancel := context.WithCancel(context.Background())
 	defer cancel()
 	r.cancel = cancel
@@ -726,7 +809,7 @@ func Exec(cs Case) Result {
 				res.State = r.state()
 			}
 		}
-	case <-time.After(10 * time.Second):
+	case <-time.After(watchdog(cs, fs)):
 		r.mu.Lock()
 		defer r.mu.Unlock()
 		res.Events = append([]Event(nil), r.events...)
@@ -827,4 +910,13 @@ func ParseLine(line string) (Case, error) {
 func isUnexpectedEOF(err error) bool {
 	var se *xml.SyntaxError
 	return errors.As(err, &se) && strings.Contains(se.Msg, "unexpected EOF")
+}
+
+// watchdog: how long Exec waits for the constructor to return. Cases with a blocking operation
+// are expected to end quickly (or never), so they get a short one.
+func watchdog(cs Case, fs faultSpec) time.Duration {
+	if fs.block >= 0 {
+		return 1200 * time.Millisecond
+	}
+	return 10 * time.Second
 }
